@@ -1,5 +1,46 @@
 """C03 — see DESIGN.md section 6."""
 from proto_engine import *
+import fmt_engine, re
+
+
+def leftover_stage(ctx, cov):
+    """what a crash between a replacement's commit and the old extent's retirement leaves: devices holding two intact
+    generations of a key - the older one also as a multi-block extent above a newer single-block one, with tail blocks
+    that look like block heads (a record stamped for that block under a foreign key, a marker, the record's own head).
+    Nothing is torn on such a device: the real store must open it, and expose only keys whose records the scan can
+    reach (the Lean reader Feox.Fmt.recoverImage is the reference for which those are)."""
+    ok, out = cargo_build(ctx, ["fmt"])
+    if not ok:
+        return
+    outs = fmt_engine.run_fmt(ctx, ["dupgen"], 6, ["workloads=%d" % (5 if ctx.tier == "quick" else 60), "mutations=8"])
+    kinds = fmt_engine.merge_hist(outs)
+    n = bad = 0
+    live = lambda l: {t.split(":")[0]: t for t in (re.search(r"live=\[([^\]]*)\]", l).group(1).split(",") if re.search(r"live=\[([^\]]*)\]", l) else []) if t}
+    for o in outs:
+        if "crash" in o:
+            violation(ctx, "fmt harness (two-generation crash leftovers) did not finish: " + o["crash"], o["crash"], tag="crash")
+            continue
+        for op, im, mo in zip(o["ops"], o["impl"], o["model"]):
+            if "dev" not in op or not op.startswith("fmt recover"):
+                continue
+            n += 1
+            if im == mo:
+                continue
+            bad += 1
+            if bad > 2:
+                continue
+            kept = fmt_engine.save_case(ctx, op, "leftover%d" % bad)
+            body = "# image (as it was before the open): see the path in the line below\n%s\n# implementation: %s\n# Lean reader   : %s\n" % (kept, im[:600], mo[:600])
+            if mo.startswith("ok") and not im.startswith("ok"):
+                violation(ctx, "a device that holds two intact generations of a key (nothing torn) does not reopen: %s" % im[:80], body, tag="leftover")
+            elif mo.startswith("ok") and im.startswith("ok") and [k for k in live(im) if k not in live(mo)]:
+                violation(ctx, "reopening a device that holds two intact generations of a key exposes key %s, which no reachable record of the device carries (bytes inside a superseded value were read as a record)" % [k for k in live(im) if k not in live(mo)][0], body, tag="leftover")
+            else:
+                violation(ctx, "correspondence: the real recovery and the Lean reader disagree on a two-generation device", body, no_input=True, tag="leftover")
+    ctx.log("leftover stage: %d two-generation devices, %d differences" % (n, bad))
+    cov["two_generation_devices"] = n
+    cov["two_generation_device_differences"] = bad
+    cov["multiblock_loser_above_newer"] = kinds.get("dup-generation-multiblock-loser-above", 0)
 
 MODULE = "Feox.Props.C03"
 THEOREMS = ['Feox.C03.allocation_from_the_front_keeps_spans', 'Feox.C03.interleaved_batches_lose_a_record', 'Feox.C03.every_crash_point', 'Feox.C03.clear_journal_is_quiescent', 'Feox.C03.view_single_run', 'Feox.Proto.Txn.step_inv', 'Feox.Proto.Txn.crash_view', 'Feox.C03.recover_ok', 'Feox.C03.recovered_complete', 'Feox.C03.write_txn_crash_safe', 'Feox.C03.write_txn_commit', 'Feox.C03.retire_txn_crash_safe', 'Feox.C03.before_intent', 'Feox.Proto.TiledBy.skip', 'Feox.Proto.TiledBy.mask', 'Feox.Proto.TiledBy.fill', 'Feox.Proto.maskRun_ignores']
@@ -11,4 +52,5 @@ def run(ctx):
         "TornDetect: a torn journal slot / metadata block fails its checksum or equals the old or the new image (DESIGN.md section 2) — a hypothesis, not an axiom",
         "the abstract disk (Feox.Proto.Disk) is related to bytes by the Lean reader Feox.Fmt.recoverImage, itself compared with the real recovery on every crash image of this run",
         "faults are injected at the I/O hook (synchronous path; io_uring disabled), not in the kernel",
-    ], lambda op: op.startswith("fmt recover") or op.startswith("txn "))
+        "crash leftovers with two intact generations of a key are built from real devices by copying a record (new timestamp / expiry / length, token re-stamped); the multi-block superseded generation gets tail blocks that look like block heads and a token re-stamped over the whole extent",
+    ], lambda op: op.startswith("fmt recover") or op.startswith("txn "), pre_finish=leftover_stage)
